@@ -115,6 +115,9 @@ def handle (c : Case) : CaseOut := Id.run do
     | "P" :: i :: fs =>
       let ph := fs.map parseInt!
       procs := procs.setIfInBounds (parseNat! i) ⟨ph, lastD ph⟩
+    | ["PR", i, f] =>
+      -- a computation that completed a plain `run()` before joining the bound: no phase left, F known
+      procs := procs.setIfInBounds (parseNat! i) ⟨[], parseInt! f⟩
     | "S" :: is => sched := is.map parseNat!
     | "G" :: i :: a :: b :: es =>
       graphs := graphs.push (parseNat! i, parseNat! a, parseNat! b, es.filterMap parseEdge)
@@ -167,12 +170,13 @@ def handle (c : Case) : CaseOut := Id.run do
         match modelPhases es src tgt with
         | none => verdict := .fail s!"solver {i}: the Dinic model does not return on this graph (model-out-of-fuel)"
         | some (ph, bits) =>
+          let recordedF := (procs.getD i ⟨[], 0⟩).F
           let recorded := (procs.getD i ⟨[], 0⟩).phases
           -- Which blocking flow a phase finds (hence the intermediate phase flows, and how often the bound is
           -- consulted) is a free choice of the implementation; what the property determines is the END of the
           -- sequence: the unbounded run's last accumulated flow is THE maximum flow (the model's, by C01's theorem)
-          if recorded.getLast?.getD 0 != ph.getLast?.getD 0 then
-            verdict := .fail s!"solver {i}: the real unbounded run ends with flow {recorded.getLast?.getD 0}, the maximum flow is {ph.getLast?.getD 0} (phase flows {recorded}, Dinic model {ph})"
+          if recordedF != ph.getLast?.getD 0 then
+            verdict := .fail s!"solver {i}: the real unbounded run ends with flow {recordedF}, the maximum flow is {ph.getLast?.getD 0} (phase flows {recorded}, Dinic model {ph})"
           else
             let want := String.join (bits.map fun b => if b then "1" else "0")
             for l in c.impl do
